@@ -25,7 +25,6 @@ PROPERTY = "C31"
 HISTORY_LEMMAS = ['modcounter_history']  # lemmas/History.lean: one-cycle contracts => history-level statement (Lean 4)
 LEVEL = "proof"
 ASSUMPTIONS = [
-    "paper lemma (not machine-checked): the per-step counter contracts imply the history-level counts by induction on the history",
     "TaggedCounter: a running incr passes one of the declared tag values (the tag argument's shape admits other bit patterns, e.g. gaps of a sparse enum; they are outside the documented domain)",
     "(ways, widths, tag sets, bucket counts, sample widths) swept as listed; unbounded in inputs and history length",
 ]
